@@ -118,6 +118,104 @@ _c('C20', 'Static confinement, lockset and three-ordering analysis of the id '
    'who-may-write confinement, lockset, ordering-evaluated branch pruning, '
    'exception-path typestate, provenance')
 
+_c('C02', 'Static ordering, lockset, provenance and lock-order analysis of '
+   'the snapshot machinery: every finish calls the invalidation callback '
+   'with the new tid under the lock that excludes loads and before the data '
+   'is loadable; wrappers/adapters forward it and invalidate first; the '
+   'snapshot bound is exactly what loads use, set only at a boundary, '
+   'atomically with draining, as max(storage tid, invalidated tid)+1; '
+   'instance state and the shared file handle are only touched under their '
+   'locks; every boundary applies invalidations to the cache; the pool\'s '
+   'reader/writer admission is mutually announced; the lock-order graph is '
+   'acyclic (storage lock <-> pool only under the commit-lock gate).  Speaks '
+   'about all interleavings through locksets without running one; does not '
+   'decide value equality with a model.',
+   'must-precede ordering + lockset + lock-order graph + provenance over an '
+   'inlined CFG with exception edges')
+_c('C06', 'Narrow structural claim on undo: read-only and identity guards '
+   'dominate, the status check dominates every staged undo record, pending '
+   'failures are checked after the loop and raise, with differing later data '
+   'the only non-raising exit returns the resolver\'s merge (flag-sensitive '
+   'exploration), resolver roles at the undo call site, undone oids are what '
+   'the adapter invalidates, undo stages only to the temporary file and the '
+   'dirty blob list.  Does not decide that the state after undo equals the '
+   'state before the undone transaction.',
+   'guard dominance with flag propagation, post-dominance of the failure '
+   'check, provenance of resolver arguments, confinement')
+_c('C07', 'Narrow structural claim on pack: reachability runs index build, '
+   'root scan from z64 and the from-the-future pass; every later record '
+   'pointing before the pack position marks its target on every path and '
+   'extra roots are traversed; a record is skipped only under "not '
+   'reachable"; every post-pack-time record is copied with its own oid/tid; '
+   'packed headers get status p; pack guards; mapping storage keeps the '
+   'newest revision and sweeps from the root; reference-extraction table '
+   'agreement.  Does not decide equality of loads before/after pack.',
+   'must-pass-through and path-typestate over loop bodies, guard dominance')
+_c('C08', 'Static typestate and lockset analysis of the pack hand-over and '
+   'swap on all paths including exception edges (with typed-handler '
+   'filtering by explicit raise sets): the packer\'s locked flag mirrors the '
+   'commit lock at every fallible point, exceptional exits release it, a '
+   'returned position means "held" and None "never acquired"; the swap steps '
+   'run under pool writer side + storage lock + commit lock, released '
+   'exactly once; the pack flag is tested-and-set in one critical section '
+   'and reset on every exit; failure cleanup; no rename of the live name '
+   '(known finding F12).  Does not enumerate schedules or crash offsets.',
+   'flag-correlated typestate, lockset, exception-edge reachability')
+_c('C10', 'Static provenance analysis of conflict resolution: the resolver '
+   'receives (old, committed, new) in these roles inside tryToResolveConflict '
+   'and at all three call sites; the returned bytes are the re-pickle of the '
+   'resolver result with the original class metadata and every other exit '
+   'raises ConflictError; resolved oids are recorded, cleared at begin, '
+   'returned by every vote and ghostified by the connection.  Does not '
+   'decide that unpickle/re-pickle preserves every reference (table '
+   'agreement in C14 covers the formats).',
+   'def-use provenance of call arguments and return values, exit analysis')
+_c('C11', 'Static ownership/typestate analysis with exception edges: an '
+   'object given an owner is recorded where abort finds it or disowned '
+   'before anything can fail (Connection._add, the writer queue, the object '
+   'being stored); abort/tpc_abort/tpc_finish end in the common cleanup; '
+   'finish marks modified and created objects clean with the storage\'s tid; '
+   'tpc_abort steps; disown always removes owner and oid together; close '
+   'refuses while joined; an oid grant is followed by queueing.  Does not '
+   'decide attribute values of objects after each boundary.',
+   'ownership typestate on all exits including exception edges, must-pass-'
+   'through, pairing')
+_c('C14', 'Narrow structural claim: the reference shapes the writer emits '
+   '(tags, arity, field order) agree with the tables of the object reader, '
+   'the conflict-resolution reader and the reference extractors; every '
+   'consumer normalises text oids; persistent_id never answers by-value for '
+   'a persistent object; references resolve through the cache and new '
+   'ghosts are registered; extraction keeps tuple/bare and skips exactly '
+   'list-shaped references.  Does not decide graph isomorphism.',
+   'writer/reader table agreement evaluated from the syntax tree, path '
+   'exploration of the shape tests')
+_c('C15', 'Static provenance and confinement analysis: the historical '
+   'adapter loads strictly before a bound set once, reports no '
+   'invalidations, forwards no writing method and exposes only raising '
+   'stubs; Connection._commit refuses a historical connection before any '
+   'store; at/before are normalised to one exclusive bound and a future '
+   'bound is refused; the strict bound of loadBefore (C04.R3).  Does not '
+   'decide equality with the model state at the bound.',
+   'provenance, constant evaluation of the forwarded-method tables, guard '
+   'dominance')
+_c('C16', 'Static confinement and provenance analysis of DemoStorage: only '
+   'reading methods are ever invoked on the base, 2PC and stores go to the '
+   'changes storage, the serial check uses the merged lookup, the base is '
+   'asked only after the changes layer, new_oid probes issued-set and both '
+   'layers, and no layer-sensitive operation is copied verbatim from the '
+   'changes storage (known finding F17: undo).  Does not decide revision-'
+   'interval arithmetic of merged reads.',
+   'who-may-call confinement over resolved receivers, ordering, provenance')
+_c('C18', 'Narrow structural claim on repozo: the copied length derives from '
+   'getSize() of a read-only storage, never the raw size; backup files are '
+   'synced before renaming and recovery goes through a .part file; the .dat '
+   'line records exactly the copied range and checksum; verify compares '
+   'size always and checksum unless quick and every mismatch raises; '
+   'incrementals only on the matching-prefix branch.  Does not decide byte '
+   'identity of recovered files.',
+   'def-use provenance, event-order automata, argument agreement, guard '
+   'dominance')
+
 NOT_YET = {}
 
 
